@@ -120,3 +120,16 @@ pub fn project_texts(path: &Path) -> (bool, String, String) {
         (false, t.clone(), t)
     }
 }
+
+/// One conversion in four (chosen by the text itself, so the choice is reproducible) goes through the library's own
+/// route (parse_with_catalog + try_from, catalogue decompressed and merged by the library); the others use the
+/// cached-catalogue shortcut. Monitors of what a conversion yields use this; monitors of the route itself (C01, C05) do not.
+pub fn convert_text_routed(is_xml: bool, text: &str) -> Conv {
+    let own_route = crate::rng::fnv64(text.as_bytes()) % 4 == 0;
+    match (is_xml, own_route) {
+        (true, true) => convert_ctehexml_text(text),
+        (false, true) => convert_bdl_text(text),
+        (true, false) => convert_ctehexml_fast(text),
+        (false, false) => convert_bdl_fast(text),
+    }
+}
